@@ -22,7 +22,10 @@ RULE = ("E1: every document with <= 3 nodes (C01 alphabet; n=4 by stride) x "
         "unchanged; the same grid with the keys moved onto integer / "
         "number-like / spaced keys; Collector additions (A)+(B)[+(C)] of the "
         "coordinate paths of every two (three) nodes and two wildcards, in "
-        "every order, matched set = union of the operands' matches. "
+        "every order, matched set = union of the operands' matches (a lone "
+        "Collector gathering one sequence = its elements); slices that can "
+        "hold no element (reversed, at/past the end) through delete and set "
+        "must change nothing. "
         "E2: Hypothesis documents with anchors x derived paths. "
         "Non-trivial = >= 2 matched positions, or an empty-container / "
         "nested / negative-index / repeated target; distinct by (document, "
@@ -95,7 +98,18 @@ def check_delete(text, segs, ptext, kinds, res, entries=("delete", "gather"),
                     # a required collector operand that matches nothing
                     res.label("collector-operand-unmatched")
                     return
-                if any(is_seq(g.v) for g in got):
+                if len(operands) == 1 and len(got) == 1 and \
+                        is_seq(got[0].v) and len(got[0].v) > 0:
+                    # a lone Collector whose sole result is a sequence stands
+                    # for that sequence's elements
+                    seq = got[0]
+                    got = [mq.N(v, seq.v, i, seq.path + (("i", i),))
+                           for i, v in enumerate(seq.v)]
+                    if any(is_seq(g.v) for g in got):
+                        res.label("unspecified")
+                        return
+                    res.label("collector-sole-sequence")
+                elif any(is_seq(g.v) for g in got):
                     # a sequence among an operand's results stands for its
                     # elements (always on the right of +, on the left when
                     # it is the sole result)
@@ -190,6 +204,7 @@ def plan(tier, seed):
             shards.append({"kind": "grid", "nmax": 3, "part": i, "parts": 4,
                            "offset": seed, "keyvar": kv,
                            "stride": 5 if tier == "quick" else 1})
+    shards.append({"kind": "empty-slice"})
     for i in range(8):
         shards.append({"kind": "collect", "part": i, "parts": 8,
                        "nmax": 3 if tier == "quick" else 4})
@@ -235,6 +250,8 @@ def run_shard(shard):
                 check_delete(text, segs, ptext, kinds, res, doc_a=doc_a)
     elif shard["kind"] == "collect":
         _run_collect(shard, res, dl)
+    elif shard["kind"] == "empty-slice":
+        _run_empty_slices(res)
     else:
         _run_hyp(shard, res, dl)
     return res
@@ -249,6 +266,54 @@ COLLECT_EXTRA = [
     ["M", [["a", ["M", [["a", ["S", 1, None]], ["b", ["S", 2, None]]], None]],
            ["b", ["L", [["S", 1, None], ["S", 2, None]], None]]], None],
 ]
+
+
+def _run_empty_slices(res):
+    """A slice that cannot hold any element (reversed bounds, or starting at
+    or past the end) selects nothing: deleting or setting through it must
+    leave the document as it was (a YAML Path error is fine)."""
+    from yamlpath.exceptions import YAMLPathException
+    for n in range(0, 4):
+        text = "a: [%s]\nb: 1\n" % ", ".join(str(i + 1) for i in range(n))
+        for lo in range(0, 6):
+            for hi in range(0, 6):
+                if not (lo > hi or lo >= n):
+                    continue
+                for sep, ptext in ((".", "a[%d:%d]" % (lo, hi)),
+                                   ("/", "/a[%d:%d]" % (lo, hi))):
+                    for entry in ("delete", "set", "set-optional"):
+                        doc, _ = gdocs.load(text)
+                        before = canon(doc)
+                        res.evaluations += 1
+                        case = {"doc": text, "text": ptext, "entry": entry,
+                                "empty-slice": True}
+                        try:
+                            proc = real.processor(doc)
+                            if entry == "delete":
+                                for _ in proc.delete_nodes(real.ypath(ptext)):
+                                    pass
+                            else:
+                                proc.set_value(real.ypath(ptext), 9,
+                                               mustexist=entry == "set")
+                        except YAMLPathException:
+                            pass
+                        except Exception as exc:
+                            etype, frame, src = exc_site(exc)
+                            res.fail({"clause": "no-crash", "exc": etype,
+                                      "frame": frame, "shape": "empty-slice"},
+                                     case, "%s: %s" % (etype, exc))
+                            continue
+                        if canon(doc) != before:
+                            res.fail({"clause": "empty-selection-changes-"
+                                      "nothing", "entry": entry,
+                                      "shape": "reversed" if lo > hi
+                                      else "past-the-end"}, case,
+                                     "before %s after %s" % (
+                                         json.dumps(before),
+                                         json.dumps(canon(doc))))
+                            continue
+                        res.nontrivial()
+                        res.label("empty-slice:" + entry)
 
 
 def _operands(doc):
@@ -287,7 +352,7 @@ def _run_collect(shard, res, dl):
         if not ok or doc_a is None or not is_container(doc_a):
             continue
         ops = _operands(doc_a)
-        combos = [(a, b) for a in ops for b in ops]
+        combos = [(a,) for a in ops] + [(a, b) for a in ops for b in ops]
         if di < len(COLLECT_EXTRA):
             combos += [(a, b, c) for a in ops[:6] for b in ops[:6]
                        for c in ops[:6] if a != b and b != c and a != c]
@@ -338,6 +403,9 @@ def _run_hyp(shard, res, dl):
 def replay(case):
     res = Result()
     entries = (case["entry"],) if "entry" in case else ("delete", "gather")
+    if case.get("empty-slice"):
+        _run_empty_slices(res)
+        return [r for _, recs in res.failures.values() for r in recs]
     if "collector+" in case:
         check_delete(case["doc"], None, case["text"], "C", res, entries,
                      operands=[gpaths.from_json(p) for p in
